@@ -25,7 +25,7 @@ func init() {
 			"(R-ARITY) no built-in indexes params[k] unless a dominating len(params) test admits k (forward must-dataflow); (R-TYPEERR) a failed type test of an operand reaches only error returns; " +
 			"(R-FOLD) arithmetic/logic are left folds acc = acc OP v with the Go operator their public name denotes, comparisons map gt/lt/ge/le to > < >= <= on (params[0], params[1]), between is inclusive on both ends, ne is != on the operands eq compares with ==, not is !; " +
 			"(R-IFACEEQ) == / != on two interface values is reached only after every operand passed a comparability guard. " +
-			"(R-BOOLARITY) an and/or node is never built with fewer than two operands (the engine can decide them without calling the operator, so the arity error is enforced where the node is built; D14). NOT decided: numeric results (wrap-around and MinInt64/-1 are Go's int64 semantics for the built-in operators the rule checks are used), and the n-ary eq loop's value beyond the operands it compares.",
+			"(R-BOOLARITY) an and/or node is never built with fewer than two operands (the engine can decide them without calling the operator, so the arity error is enforced where the node is built; D14). NOT decided: numeric results (wrap-around and MinInt64/-1 are Go's int64 semantics for the built-in operators the rule checks are used), and the n-ary eq loop's value beyond the operands it compares. Round 2: R-IFACEEQ verifies the value-level comparability walk of eq/ne structurally (a type-level answer is rejected, D17); R-PAIRBOOL, R-FLATTEN and the fold rules shared.",
 		Run:       runC18,
 		Witnesses: append(append(append(append([]Witness{}, valueWalkWitnesses...), wave9Witnesses18...), betweenArrayWitnesses...), c18Witnesses...),
 	})
